@@ -267,13 +267,10 @@ func (e *Engine) callFunc(fr *frame, ins ssa.Instruction, fn *ssa.Function, args
 		if e.calleeLogFlag != "" {
 			return Sc{e.calleeLogFlag, SBool}, reach
 		}
-		t := "false"
-		for _, ev := range e.ghostEvents {
-			if ev[0] == "logerror" {
-				t = or(t, ev[1])
-			}
+		if e.loggedTerm == "" {
+			return Sc{"false", SBool}, reach
 		}
-		return Sc{e.sc.define("logged", SBool, t), SBool}, reach
+		return Sc{e.loggedTerm, SBool}, reach
 	case "implies":
 		if fn.Pkg != nil && strings.HasPrefix(fn.Pkg.Pkg.Path(), repoModule) {
 			return Sc{implies(e.scalar(args[0]).T, e.scalar(args[1]).T), SBool}, reach
